@@ -18,7 +18,13 @@ def main():
         p = os.path.join(chk.outdir, "gt_%d.ndjson" % sh)
         vlib.write_ndjson(p, gen)
         idx = os.path.join(chk.outdir, "idx_%d.ndjson" % sh)
-        o = json.loads(vlib.harness(hb, ["tables", p, idx, chk.seed + sh]))
+        try:
+            o = json.loads(vlib.harness(hb, ["tables", p, idx, chk.seed + sh]))
+        except vlib.HarnessCrash as ex:
+            # a lookup that takes the process down (an unchecked index outside its table) is data: the shard is reported
+            # as a violation with the file to reproduce it; its remaining cases are not examined
+            return {"sliders": 0, "perturbed": 0, "leapers": 0, "between": 0, "samples": [], "crash": str(ex)[:300],
+                    "mismatches": [{"t": "crash", "what": "table lookup ended the process (signal)", "shard": sh, "stderr": ex.stderr[-300:]}]}, None, p, idx
         t = vlib.tlc("Trace_Tables", env={"TRACE": idx}, timeout=3000, xmx="3g")
         if t.error or not t.stats("tables"):
             raise vlib.ToolError("Trace_Tables: " + (t.error or t.stdout[-1500:]))
@@ -32,10 +38,12 @@ def main():
             chk.sample(s, cap=4)
         for m in o["mismatches"]:
             chk.violation(json.dumps(m, sort_keys=True), "table-vs-geometry", m, replay={"kind": "tables", "file": p})
+        if t is None:
+            continue
         for d in t.viols("C07"):
             chk.violation(json.dumps(d["detail"], sort_keys=True), d["what"], d, replay={"kind": "tables-index", "file": idx})
         lookups += t.stats("tables")[0]["lookups"]
-    if tot["sliders"] != 107648 or tot["leapers"] != 256 or tot["between"] != 4096:
+    if not chk.violations and (tot["sliders"] != 107648 or tot["leapers"] != 256 or tot["between"] != 4096):
         raise vlib.ToolError("enumeration incomplete: %s" % tot)
     chk.cov.update({
         "states": tot["sliders"] + tot["leapers"] + tot["between"],
